@@ -402,3 +402,162 @@ def rule_binfloor(P) -> RuleResult:
     _month_cases(P, fi, res)
     _day_cases(P, fi, res)
     return res
+
+
+# ---------------------------------------------------------------------- R-TRUNCLAW: date_trunc / date_part / quarter against the calendar
+# Integer arithmetic over the fields of a date, normalised exactly: atoms y, m, d and F(var, a, p) = floor((var - a) / p), with
+# (var - a) % p = (var - a) - p * F(var, a, p) and (var - a) // p = F(var, a, p).  The first day of a unit that starts at years
+# (or months) congruent to a modulo p is a + p * F(var, a, p); the number of the unit is F(var, a, p) (+ 1 for one-based counts).
+
+def _lf_add(a, b, sign=1):
+    out = dict(a)
+    for k, v in b.items():
+        out[k] = out.get(k, 0) + sign * v
+        if out[k] == 0:
+            del out[k]
+    return out
+
+
+def _lf_scale(a, c):
+    return {k: v * c for k, v in a.items() if v * c != 0}
+
+
+def _lf(t, X):
+    """term -> linear form {atom: coefficient} or None"""
+    if type(t) is int:
+        return {('1',): Fraction(t)} if t else {}
+    if isinstance(t, T) and t.op == 'attr' and t.args[0] == X and t.args[1] in ('year', 'month', 'day'):
+        return {(t.args[1][0],): Fraction(1)}
+    if isinstance(t, T) and t.op == 'neg':
+        a = _lf(t.args[0], X)
+        return None if a is None else _lf_scale(a, -1)
+    if isinstance(t, T) and t.op == 'bin':
+        op, l, r = t.args
+        a, b = _lf(l, X), _lf(r, X)
+        if a is None or b is None:
+            return None
+        if op in ('+', '-'):
+            return _lf_add(a, b, 1 if op == '+' else -1)
+        const = lambda f: f.get(('1',), 0) if set(f) <= {('1',)} else None
+        if op == '*':
+            if const(a) is not None:
+                return _lf_scale(b, const(a))
+            if const(b) is not None:
+                return _lf_scale(a, const(b))
+            return None
+        if op in ('%', '//') and const(b) is not None and const(b) > 0:
+            p = const(b)
+            vars_ = [k for k in a if k != ('1',)]
+            if len(vars_) == 1 and a[vars_[0]] == 1 and len(vars_[0]) == 1 and p.denominator == 1:
+                var = vars_[0][0]
+                off = -a.get(('1',), 0)          # a = var - off
+                atom = ('F', var, int(off), int(p))
+                if op == '//':
+                    return {atom: Fraction(1)}
+                return _lf_add(a, {atom: Fraction(p)}, -1)
+            return None
+    return None
+
+
+def _show_lf(f):
+    if f is None:
+        return 'not integer arithmetic over the date fields'
+    names = {('y',): 'year', ('m',): 'month', ('d',): 'day', ('1',): '1'}
+    parts = []
+    for k, v in sorted(f.items(), key=repr):
+        n = names.get(k) or f'floor(({ {"y": "year", "m": "month", "d": "day"}[k[1]] } - {k[2]}) / {k[3]})'
+        parts.append(n if v == 1 and n != '1' else f'{v}' if n == '1' else f'{v}*{n}')
+    return ' + '.join(parts) or '0'
+
+
+def _F(var, a, p, coef=1, const=0):
+    f = {('F', var, a, p): Fraction(coef)}
+    if const:
+        f[('1',)] = Fraction(const)
+    return f
+
+
+TRUNC_SPEC = {
+    'month': ({('y',): 1}, {('m',): 1}, {('1',): 1}),
+    'quarter': ({('y',): 1}, _F('m', 1, 3, 3, 1), {('1',): 1}),
+    'year': ({('y',): 1}, {('1',): 1}, {('1',): 1}),
+    'decade': (_F('y', 0, 10, 10), {('1',): 1}, {('1',): 1}),
+    'century': (_F('y', 1, 100, 100, 1), {('1',): 1}, {('1',): 1}),
+    'millennium': (_F('y', 1, 1000, 1000, 1), {('1',): 1}, {('1',): 1}),
+}
+PART_SPEC = {
+    'year': {('y',): 1}, 'month': {('m',): 1}, 'quarter': _F('m', 1, 3, 1, 1), 'decade': _F('y', 0, 10),
+    'century': _F('y', 1, 100, 1, 1), 'millennium': _F('y', 1, 1000, 1, 1),
+}
+
+
+def _norm(f):
+    return {k: Fraction(v) for k, v in f.items() if v}
+
+
+def rule_trunclaw(P) -> RuleResult:
+    res = RuleResult('R-TRUNCLAW')
+    res.exhaustive = True
+    m = P.module(QE)
+    X = Sym('DATE')
+    tr = m.toplevel_funcs.get('date_trunc')
+    pa = m.toplevel_funcs.get('date_part')
+    qu = m.toplevel_funcs.get('quarter')
+    if not tr or not pa:
+        raise AnalysisError('anchor vanished: query_env.date_trunc / date_part')
+    tr, pa = tr[-1], pa[-1]
+    for unit, want in TRUNC_SPEC.items():
+        construct = f'function:date_trunc[{unit}]'
+        paths = Engine(P).paths(tr, {tr.params[0]: unit, tr.params[1]: X})
+        if len(paths) != 1 or paths[0].decisions:
+            raise AnalysisError(f'{tr.fq}: the branch for unit {unit!r} is not selected by comparisons with constants')
+        v = paths[0].value
+        got = None
+        if isinstance(v, T) and v.op == 'call' and str(v.args[0]).split('.')[-1] == 'date' and len(v.args[1]) == 3 and not v.args[2]:
+            got = tuple(_lf(a, X) for a in v.args[1])
+        elif isinstance(v, T) and v.op == 'call' and str(v.args[0]).endswith('.replace') and str(v.args[0]).startswith('DATE.'):
+            kw = dict(v.args[2])
+            got = tuple(_lf(kw[k], X) if k in kw else {(k[0],): Fraction(1)} for k in ('year', 'month', 'day'))
+        if got is None or any(g is None for g in got) or tuple(_norm(g) for g in got) != tuple(_norm(w) for w in want):
+            shown = ', '.join(_show_lf(g) for g in got) if got else show(v)[:100]
+            res.fail(construct, f'trunclaw:trunc:{unit}', f"date_trunc('{unit}', d) must be the first day of d's {unit}: "
+                     f'date({", ".join(_show_lf(_norm(w)) for w in want)}); the implementation gives date({shown})', loc(tr))
+        else:
+            res.ok({'function': 'date_trunc', 'unit': unit, 'value': f'date({", ".join(_show_lf(_norm(w)) for w in want)})'})
+    # week: the Monday on or before d
+    paths = Engine(P).paths(tr, {tr.params[0]: 'week', tr.params[1]: X})
+    v = paths[0].value if len(paths) == 1 else None
+    monday_rd = isinstance(v, T) and v.op == 'bin' and v.args[0] == '-' and v.args[1] == X and isinstance(v.args[2], T) and v.args[2].op == 'call' \
+        and str(v.args[2].args[0]).endswith('relativedelta') and dict(v.args[2].args[2]).get('weekday') == T('call', ('weekday', (0, -1), ()))
+    monday_td = isinstance(v, T) and v.op == 'bin' and v.args[0] == '-' and v.args[1] == X and isinstance(v.args[2], T) and v.args[2].op == 'call' \
+        and str(v.args[2].args[0]).endswith('timedelta') and dict(v.args[2].args[2]).get('days') == T('call', ('DATE.weekday', (), ()))
+    if monday_rd or monday_td:
+        res.ok({'function': 'date_trunc', 'unit': 'week', 'value': 'the Monday on or before d'})
+    else:
+        res.fail('function:date_trunc[week]', 'trunclaw:trunc:week', f"date_trunc('week', d) must be the Monday on or before d (d - "
+                 f"relativedelta(weekday=MO(-1)) or d - timedelta(days=d.weekday())); the implementation gives `{show(v)[:100]}`", loc(tr))
+    for unit, want in PART_SPEC.items():
+        paths = Engine(P).paths(pa, {pa.params[0]: unit, pa.params[1]: X})
+        if len(paths) != 1 or paths[0].decisions:
+            raise AnalysisError(f'{pa.fq}: the branch for unit {unit!r} is not selected by comparisons with constants')
+        got = _lf(paths[0].value, X)
+        if got is None or _norm(got) != _norm(want):
+            res.fail(f'function:date_part[{unit}]', f'trunclaw:part:{unit}', f"date_part('{unit}', d) must be {_show_lf(_norm(want))}; the "
+                     f'implementation gives {_show_lf(got) if got is not None else show(paths[0].value)[:80]}', loc(pa))
+        else:
+            res.ok({'function': 'date_part', 'unit': unit, 'value': _show_lf(_norm(want))})
+    if qu:
+        q = qu[-1]
+        for p in Engine(P).paths(q, {q.params[0]: X}):
+            v = p.value
+            # 'YYYY-Qn': the year and the one-based quarter, formatted
+            vals = [x.args[0] if isinstance(x, T) and x.op == 'fmt' else x for x in (v.args if isinstance(v, T) and v.op == 'fstr' else ())
+                    if not isinstance(x, str)]
+            lits = [x for x in (v.args if isinstance(v, T) and v.op == 'fstr' else ()) if isinstance(x, str)]
+            got = [_lf(x, X) for x in vals]
+            if len(got) == 2 and None not in got and _norm(got[0]) == {('y',): 1} and _norm(got[1]) == _norm(PART_SPEC['quarter']) and lits == ['-Q']:
+                res.ok({'function': 'quarter', 'value': f"year '-Q' {_show_lf(_norm(PART_SPEC['quarter']))}"})
+            else:
+                res.fail('function:quarter', 'trunclaw:quarter', f"quarter(d) must be '<year>-Q<{_show_lf(_norm(PART_SPEC['quarter']))}>'; the "
+                         f'implementation gives `{show(v)[:100]}`', loc(q))
+    return res
